@@ -649,6 +649,107 @@ static long long conv_index(long long k)
   }
 }
 
+// ------------------------------------------------------------------------------------------ self-referential nodes
+// struct Node { P<Node> next; }: the handle that is the SOURCE (or the TARGET) of a move / reset / swap is a member of
+// the pointee of the other handle, e.g. head = std::move(head->next).  Destruction order is recorded.
+template <class F>
+struct UNode
+{
+  Counter *c; long id;
+  typename F::template up<UNode> next;
+  explicit UNode(Counter *c_) : c(c_), id(c_->next_id++) { c->live++; }
+  ~UNode() { c->live--; c->destroyed.push_back(id); }
+};
+template <class F>
+struct SNode
+{
+  Counter *c; long id;
+  typename F::template sp<SNode> next;
+  explicit SNode(Counter *c_) : c(c_), id(c_->next_id++) { c->live++; }
+  ~SNode() { c->live--; c->destroyed.push_back(id); }
+};
+
+template <class Node, class P, bool kShared>
+struct ChainLane
+{
+  Counter c;
+  P head, aux;
+
+  static size_t len(const P &p) { size_t n = 0; for (Node *x = p.get(); x; x = x->next.get()) n++; return n; }
+
+  bool exec(const std::string &n)
+  {
+    size_t hl = len(head);
+    if (n == "push") { P x(new Node(&c)); x->next = std::move(head); head = std::move(x); return true; }
+    if (n == "pushaux") { P x(new Node(&c)); x->next = std::move(aux); aux = std::move(x); return true; }
+    if (n == "append")
+    {
+      if (!head) { head = P(new Node(&c)); return true; }
+      Node *t = head.get();
+      while (t->next) t = t->next.get();
+      t->next = P(new Node(&c));
+      return true;
+    }
+    if (n == "swapaux") { head.swap(aux); return true; }
+    if (n == "movehead") { head = std::move(aux); return true; }
+    if (n == "clear") { head = nullptr; return true; }
+    if (n == "clearaux") { aux = nullptr; return true; }
+    if (n == "pop2") { if (hl < 2) return false; head = std::move(head->next->next); return true; }
+    if (hl < 1) return false;
+    if (n == "pop") { head = std::move(head->next); return true; }
+    if (n == "cuttail") { head->next = nullptr; return true; }
+    if (n == "split") { aux = std::move(head->next); return true; }
+    if (n == "join") { head->next = std::move(aux); return true; }
+    if (n == "swaptail") { head->next.swap(aux); return true; }
+    if (n == "selfnext") { P &nx = head->next; P &same = head->next; nx = std::move(same); return true; }
+    if constexpr (kShared)
+    {
+      if (n == "popc") { head = head->next; return true; }
+    }
+    else
+    {
+      if (n == "popr") { head.reset(head->next.release()); return true; }
+      if (n == "detach")
+      {
+        Node *first = head.get();
+        head.swap(first->next);                      // swap(head, head->next): `first` now owns itself
+        aux.reset(first->next.release());            // break the cycle, hand the node to aux
+        return true;
+      }
+    }
+    return false;
+  }
+
+  void state(Toks &o)
+  {
+    o.push_back("D");
+    for (long id : c.destroyed) o.push_back(num(id));
+    c.destroyed.clear();
+    o.push_back("L"); o.push_back(num(c.live)); o.push_back("H");
+    for (Node *x = head.get(); x; x = x->next.get()) o.push_back(num(x->id));
+    o.push_back("A");
+    for (Node *x = aux.get(); x; x = x->next.get()) o.push_back(num(x->id));
+  }
+
+  Toks run(const std::vector<std::vector<Tok>> &ops)
+  {
+    Toks o;
+    for (const auto &op : ops)
+    {
+      if (op.empty()) continue;
+      if (!(op.size() == 1 && exec(op[0].s))) o.push_back("skip");
+      state(o);
+      o.push_back(";");
+    }
+    head = nullptr;
+    aux = nullptr;
+    o.push_back("end");
+    state(o);
+    o.push_back(";");
+    return o;
+  }
+};
+
 // ------------------------------------------------------------------------------------------ function_ref
 typedef long long Sig(long long, long long);
 static long long plain_fn(long long a, long long b) { return a - 2 * b; }
@@ -658,55 +759,89 @@ struct Acc
   long long operator()(long long a, long long b) { acc += a; return acc * 3 + b; }
 };
 
-static Toks fr_lane(const std::vector<std::vector<Tok>> &ops, bool use_nostd)
+// One lane of a function_ref case.  Fn = nostd::function_ref<Sig> or std::function<Sig> (which owns its target; it
+// holds std::ref(callable), so that "the copy keeps calling the original callable" is what the reference lane does).
+// The SOURCE reference is a named non-const object living in re-usable storage: a later bind / drop placement-news
+// another Fn into the same bytes, so a copy that (wrongly) refers to the source OBJECT rather than to the source's
+// callable sees the new binding.
+template <class Fn, bool kNostd>
+static Toks fr_lane_t(const std::vector<std::vector<Tok>> &ops)
 {
   Toks o;
   long long calls = 0;
   auto lam = [&calls](long long a, long long b) { calls++; return a + b * calls; };
   Acc acc;
   Sig *null_fp = nullptr;
-  std::optional<nostd::function_ref<Sig>> r;
-  std::optional<std::function<Sig>> f;
+  typename std::aligned_storage<sizeof(Fn), alignof(Fn)>::type storage;
+  Fn *src = nullptr;          // the object in `storage`, if the harness considers the source bound
+  bool storage_live = false;  // an Fn object exists in `storage`
+  std::optional<Fn> copy;
+  auto place = [&](int k) {
+    if (storage_live) reinterpret_cast<Fn *>(&storage)->~Fn();
+    switch (k)
+    {
+      case 0: if constexpr (kNostd) src = new (&storage) Fn(lam); else src = new (&storage) Fn(std::ref(lam)); break;
+      case 1: src = new (&storage) Fn(plain_fn); break;
+      case 2: if constexpr (kNostd) src = new (&storage) Fn(acc); else src = new (&storage) Fn(std::ref(acc)); break;
+      case 3: src = new (&storage) Fn(nullptr); break;
+      default: src = new (&storage) Fn(null_fp); break;
+    }
+    storage_live = true;
+  };
   for (const auto &op : ops)
   {
     if (op.empty()) continue;
     const std::string &n = op[0].s;
     Toks res;
-    bool bound = use_nostd ? r.has_value() : f.has_value();
-    if (n == "bind" && op.size() == 2 && op[1].as_ll() >= 0 && op[1].as_ll() < 5)
-    {
-      switch (op[1].as_ll())
-      {
-        case 0: if (use_nostd) r.emplace(lam); else f.emplace(std::ref(lam)); break;
-        case 1: if (use_nostd) r.emplace(plain_fn); else f.emplace(plain_fn); break;
-        case 2: if (use_nostd) r.emplace(acc); else f.emplace(std::ref(acc)); break;
-        case 3: if (use_nostd) r.emplace(nullptr); else f.emplace(nullptr); break;
-        default: if (use_nostd) r.emplace(null_fp); else f.emplace(null_fp); break;
-      }
-    }
-    else if ((n == "call" || n == "ccall") && op.size() == 3 && bound)
+    if (n == "bind" && op.size() == 2 && op[1].as_ll() >= 0 && op[1].as_ll() < 5) place(int(op[1].as_ll()));
+    else if ((n == "call" || n == "ccall") && op.size() == 3 && src)
     {
       long long a = op[1].as_ll(), b = op[2].as_ll();
-      if (use_nostd)
+      if (!bool(*src)) res.push_back("null");
+      else if (n == "call") res.push_back(num((*src)(a, b)));
+      else { Fn c1(*src); Fn c2(std::move(c1)); res.push_back(num(c2(a, b))); }
+    }
+    else if (n == "bool" && src) res.push_back(num(bool(*src)));
+    else if (n == "copy" && op.size() == 2 && src && op[1].as_ll() >= 0 && op[1].as_ll() < 3)
+    {
+      copy.reset();
+      switch (op[1].as_ll())
       {
-        if (!bool(*r)) res.push_back("null");
-        else if (n == "call") res.push_back(num((*r)(a, b)));
-        else { nostd::function_ref<Sig> c1(*r); nostd::function_ref<Sig> c2(std::move(c1)); res.push_back(num(c2(a, b))); }
-      }
-      else
-      {
-        if (!bool(*f)) res.push_back("null");
-        else if (n == "call") res.push_back(num((*f)(a, b)));
-        else { std::function<Sig> c1(*f); std::function<Sig> c2(std::move(c1)); res.push_back(num(c2(a, b))); }
+        case 0: { Fn &named = *src; copy.emplace(named); break; }              // from a named non-const lvalue
+        case 1: { const Fn &cnamed = *src; copy.emplace(cnamed); break; }      // from a const lvalue
+        default:                                                               // from an rvalue: moving a reference copies it
+          if constexpr (kNostd) copy.emplace(std::move(*src)); else copy.emplace(Fn(*src));   // (a moved-from std::function is emptied)
+          break;
       }
     }
-    else if (n == "bool" && bound) res.push_back(num(use_nostd ? bool(*r) : bool(*f)));
+    else if (n == "callc" && op.size() == 3 && copy)
+    {
+      long long a = op[1].as_ll(), b = op[2].as_ll();
+      if (!bool(*copy)) res.push_back("null");
+      else res.push_back(num((*copy)(a, b)));
+    }
+    else if (n == "boolc" && copy) res.push_back(num(bool(*copy)));
+    else if (n == "drop")
+    {
+      // the source object goes away and its bytes are re-used for an empty reference
+      if (storage_live) reinterpret_cast<Fn *>(&storage)->~Fn();
+      new (&storage) Fn(nullptr);
+      storage_live = true;
+      src = nullptr;
+    }
     else res.push_back("skip");
     for (auto &x : res) o.push_back(x);
     o.push_back("C"); o.push_back(num(calls)); o.push_back(num(acc.acc));
     o.push_back(";");
   }
+  copy.reset();
+  if (storage_live) reinterpret_cast<Fn *>(&storage)->~Fn();
   return o;
+}
+
+static Toks fr_lane(const std::vector<std::vector<Tok>> &ops, bool use_nostd)
+{
+  return use_nostd ? fr_lane_t<nostd::function_ref<Sig>, true>(ops) : fr_lane_t<std::function<Sig>, false>(ops);
 }
 
 static void run_one(const std::vector<Tok> &t, verif::Out &o)
@@ -731,6 +866,18 @@ static void run_one(const std::vector<Tok> &t, verif::Out &o)
     o.add(finish(a.run(ops), b.run(ops)));
   }
   else if (t[0].is_tag("FR")) o.add(finish(fr_lane(ops, true), fr_lane(ops, false)));
+  else if (t[0].is_tag("CHU"))
+  {
+    ChainLane<UNode<NostdFam>, nostd::unique_ptr<UNode<NostdFam>>, false> a;
+    ChainLane<UNode<StdFam>, std::unique_ptr<UNode<StdFam>>, false> b;
+    o.add(finish(a.run(ops), b.run(ops)));
+  }
+  else if (t[0].is_tag("CHS"))
+  {
+    ChainLane<SNode<NostdFam>, nostd::shared_ptr<SNode<NostdFam>>, true> a;
+    ChainLane<SNode<StdFam>, std::shared_ptr<SNode<StdFam>>, true> b;
+    o.add(finish(a.run(ops), b.run(ops)));
+  }
   else o.tag("BADCASE");
 }
 
